@@ -1082,7 +1082,14 @@ func pagingCheck(rep *Report, run *Run, g *Gen, s Setup, seed int64) {
 					want := fmt.Sprintf("%d|%s|%s|%d|%s|%d|%v", t.action, t.from, t.fromAsset, t.fromAmount, t.toAsset, t.toAmount, wantOuts)
 					rep.Count("paging:rows-compared")
 					if got != want {
-						rep.Violate("paging:content", fmt.Sprintf("%s: action %s/%d is returned as %s, the recorded row is %s", what, k.hash, k.idx, got, want), "")
+						sig := "paging:content"
+						if L.MixedPegBatch(k.hash) {
+							// the known double payment of batches mixing a PEG request with other
+							// transactions also writes a refund output into the row of the ORDINARY
+							// conversion, which the API (outputs only for transfers and PEG requests) drops
+							sig += ":mixed-peg-request-batch"
+						}
+						rep.Violate(sig, fmt.Sprintf("%s: action %s/%d is returned as %s, the recorded row is %s", what, k.hash, k.idx, got, want), "")
 					}
 				}
 				if seen[k] {
